@@ -15,6 +15,19 @@ PARTIAL (named `_partial`): the measure of CSE - strict decrease is proved unles
 replaced by another Identity node (`cseStalled`); CSE is NOT idempotent (example `exCse3`).
 Not here (oracle only): Inline, AddDefaultAttributes, the schema-driven optional-output removal; use-def
 consistency; names kept; ordered-stays-ordered for CSE / OutputFix / Inline; nothing mentions serialized bytes.
+
+Second deepening round (last part of the file, from `C14_flag_inline` on; helper developments
+`Lemmas/PassFlags10.lean` .. `PassFlags12.lean`, `Lemmas/PassKernel.lean`): InlinePass on C05's model of the pass
+(`Model/Inline.lean`; flag = `bool(total_inlined)` = `ISt.count != 0`): flag honesty, "a run that is not stuck
+leaves no call that the criteria accept", idempotence, measure (#accepted call nodes, 0 after one round);
+`C14_inline_valid`: on C05's `validF` models that do not make the pass raise all of this holds of `inlineModel`
+(what the driver returns) - `stuck = false` is C05's `C05_inline_total`.  CSE: the weighted node count never grows
+and a stalled rewrite is an elimination (`C14_cse_weight_mono`); the measure in stalled rounds is STILL open (a
+stalled round CAN be followed by further modifying rounds: example `exCse4`).  Ordered stays ordered for the node
+ADDING passes CSE and OutputFix on `validModel` inputs (`C14_keeps_sorted_add`, corollary of `C05_pass_valid`).
+Use-def / ownership / names: RemoveUnusedNodes and IdentityElimination written as programs over C01's kernel
+(`Model/PassKernel.lean`) keep C01's invariant `WF` and are the replay of the public mutator calls they issue
+(`C14_wf_remove_unused_nodes`, `C14_wf_identity_elimination`, corollaries of `C01_step_any`).
 -/
 import IrVerif.Model.PassInfra
 import IrVerif.Lemmas.PassInfra
@@ -29,6 +42,11 @@ import IrVerif.Lemmas.PassFlags7
 import IrVerif.Lemmas.PassFlags8
 import IrVerif.Lemmas.PassFlags9
 import IrVerif.Props.C15
+import IrVerif.Lemmas.PassFlags11
+import IrVerif.Lemmas.PassFlags12
+import IrVerif.Lemmas.PassKernel
+import IrVerif.Props.C05
+import IrVerif.Props.C01
 namespace IrVerif.PassInfra
 
 /-! ## identity rule -/
@@ -1822,5 +1840,248 @@ example : (removeUnusedFunctions ⟨[3], [(1, []), (2, [1]), (3, [2, 2]), (4, [3
   decide
 
 end NonVacuity2
+
+/-! # Second deepening round -/
+
+/-! ## InlinePass on C05's model of the pass -/
+section Inline
+open IrVerif.Sem IrVerif.Passes IrVerif.Inline IrVerif.PassFlags
+
+theorem sum_zero_of_all {α : Type} (f : α → Nat) : ∀ l : List α, (∀ a ∈ l, f a = 0) → (l.map f).sum = 0
+  | [], _ => rfl
+  | a :: l, h => by
+    simp only [List.map_cons, List.sum_cons, h a (by simp), sum_zero_of_all f l (fun b hb => h b (by simp [hb]))]
+
+theorem all_of_sum_zero {α : Type} (f : α → Nat) : ∀ l : List α, (l.map f).sum = 0 → ∀ a ∈ l, f a = 0
+  | [], _, a, ha => by cases ha
+  | x :: l, h, a, ha => by
+    simp only [List.map_cons, List.sum_cons] at h
+    rcases List.mem_cons.1 ha with rfl | ha'
+    · omega
+    · exact all_of_sum_zero f l (by omega) a ha'
+
+/-- the measure is 0 exactly when no accepted call is left anywhere -/
+theorem inlCalls_zero_iff (crit : OpId → Bool) (m : FModel) :
+    inlCalls crit m = 0 ↔ (opsAllG (inlClean m.funcs crit) m.graph = true ∧
+      ∀ f ∈ m.funcs, opsAllNodes (inlClean m.funcs crit) f.nodes = true) := by
+  simp only [inlCalls, Nat.add_eq_zero_iff]
+  constructor
+  · rintro ⟨h1, h2⟩
+    exact ⟨(opCntG_zero _ _).1 h1, fun f hf => (opCntNodes_zero _ _).1 (all_of_sum_zero _ _ h2 f hf)⟩
+  · rintro ⟨h1, h2⟩
+    exact ⟨(opCntG_zero _ _).2 h1, sum_zero_of_all _ _ (fun f hf => (opCntNodes_zero _ _).2 (h2 f hf))⟩
+
+/-- **C14_flag_inline**: InlinePass (C05's model of the pass: main graph, nested graphs, the nodes inserted for a
+    call, the functions that are left; any criteria) reports `modified = False` - `total_inlined == 0` - only if
+    the model it returns is the model it was given (structure, value identities, function table, opset domains).
+    `funcIdsNodup`: `model.functions` is a dictionary (evaluated by the driver on every case). -/
+theorem C14_flag_inline (crit : OpId → Bool) (m : FModel) (hn : funcIdsNodup m = true)
+    (h : inlFlag crit m = false) : (inlineRun crit m).model = m ∧ inlineModel crit m = m := by
+  simp only [funcIdsNodup, decide_eq_true_eq] at hn
+  simp only [inlFlag, bne_eq_false_iff_eq] at h
+  have e := inlineRun_cnt0 crit m hn h
+  refine ⟨e, ?_⟩
+  unfold inlineModel
+  split
+  · exact e
+  · rfl
+
+/-- **C14_measure_inline**: the number of call nodes the pass would inline (calls to model-local functions that
+    the criteria accept; main graph, every function, nested graphs) is a measure: after a run that is not
+    `stuck` (the unrolling budget of the MODEL sufficed: always the case for a non-recursive call graph, see
+    `C14_inline_valid`) it is 0 - no accepted call is left in the main graph or in a function that remains -
+    so `modified = True` strictly decreases it. -/
+theorem C14_measure_inline (crit : OpId → Bool) (m : FModel) (hn : funcIdsNodup m = true)
+    (hs : (inlineRun crit m).st.stuck = false) :
+    inlCalls crit (inlineRun crit m).model = 0 ∧
+    (inlFlag crit m = true → inlCalls crit (inlineRun crit m).model < inlCalls crit m) := by
+  simp only [funcIdsNodup, decide_eq_true_eq] at hn
+  have hc := inlineRun_clean crit m hs
+  have hsub : ∀ op, inlClean m.funcs crit op = true → inlClean (inlineRun crit m).model.funcs crit op = true := by
+    intro op hop
+    simp only [inlClean, Bool.not_eq_true', Bool.and_eq_false_iff] at hop ⊢
+    rcases hop with hop | hop
+    · exact Or.inl hop
+    · right
+      cases hh : (findFunc (inlineRun crit m).model.funcs op).isSome with
+      | false => rfl
+      | true =>
+        have := (findFunc_isSome _ _).2 (inlineRun_ids_sub crit m op ((findFunc_isSome _ _).1 hh))
+        rw [this] at hop; exact absurd hop (by decide)
+  have h0 : inlCalls crit (inlineRun crit m).model = 0 :=
+    (inlCalls_zero_iff crit _).2 ⟨PassFlags.opsAllG_mono hsub _ hc.1, fun f hf => PassFlags.opsAllNodes_mono hsub _ (hc.2 f hf)⟩
+  refine ⟨h0, fun hf => ?_⟩
+  rw [h0]
+  apply Nat.pos_of_ne_zero
+  intro hz
+  obtain ⟨hg, hfs⟩ := (inlCalls_zero_iff crit m).1 hz
+  have := (inlineRun_id crit m hn hg hfs).2.1
+  simp [inlFlag, this] at hf
+
+/-- **C14_fix_inline**: InlinePass applied to the result of a run that was not stuck reports `False`, returns
+    that model unchanged and is itself not stuck: one round reaches the fixpoint, a PassManager with `early_stop`
+    executes at most two rounds (`C14_idempotent_rounds`). -/
+theorem C14_fix_inline (crit : OpId → Bool) (m : FModel) (hn : funcIdsNodup m = true)
+    (hs : (inlineRun crit m).st.stuck = false) :
+    inlFlag crit (inlineRun crit m).model = false ∧
+    (inlineRun crit (inlineRun crit m).model).model = (inlineRun crit m).model ∧
+    (inlineRun crit (inlineRun crit m).model).st.stuck = false ∧
+    funcIdsNodup (inlineRun crit m).model = true := by
+  have h0 := (C14_measure_inline crit m hn hs).1
+  simp only [funcIdsNodup, decide_eq_true_eq] at hn ⊢
+  have hn' := inlineRun_ids_nodup crit m hn
+  obtain ⟨hg, hfs⟩ := (inlCalls_zero_iff crit _).1 h0
+  obtain ⟨e1, e2, e3⟩ := inlineRun_id crit _ hn' hg hfs
+  exact ⟨by simp [inlFlag, e2], e1, e3, hn'⟩
+
+/-- **C14_inline_valid**: on a model that satisfies C05's `validF` (SSA, closed, ordered, scoped graphs; distinct
+    function identifiers; non-recursive call graph; calls that fit their functions - evaluated by the driver on
+    every case) and on which the pass does not raise, everything above holds of `inlineModel`, the function that
+    the driver compares with the real pass: `False` means unchanged; the result has no accepted call left
+    (measure 0, strictly smaller when the flag was up); a second application reports `False` and changes nothing.
+    The budget hypothesis `stuck = false` is discharged by `C05_inline_total`. -/
+theorem C14_inline_valid (crit : OpId → Bool) (m : FModel) (hv : validF m = true)
+    (hr : (inlineRun crit m).st.raised = false) :
+    (inlFlag crit m = false → inlineModel crit m = m) ∧
+    inlCalls crit (inlineModel crit m) = 0 ∧
+    (inlFlag crit m = true → inlCalls crit (inlineModel crit m) < inlCalls crit m) ∧
+    inlFlag crit (inlineModel crit m) = false ∧
+    inlineModel crit (inlineModel crit m) = inlineModel crit m := by
+  obtain ⟨hok, hm⟩ := C05_inline_total crit m hv hr
+  have hn : funcIdsNodup m = true := by
+    simp only [validF, Bool.and_eq_true] at hv
+    simp only [funcIdsNodup]
+    exact hv.1.1.1.1.2
+  have hs : (inlineRun crit m).st.stuck = false := by
+    simp only [runOK, Bool.and_eq_true, Bool.not_eq_true'] at hok
+    exact hok.1.1.1.1.1
+  obtain ⟨f1, f2, _, _⟩ := C14_fix_inline crit m hn hs
+  have hmeas := C14_measure_inline crit m hn hs
+  rw [hm]
+  refine ⟨fun h => (C14_flag_inline crit m hn h).1, hmeas.1, hmeas.2, f1, ?_⟩
+  unfold inlineModel
+  split
+  · exact f2
+  · rfl
+
+end Inline
+
+/-! ## CSE: what is proved about stalled rounds, and what is not -/
+section Cse2
+open IrVerif.Sem IrVerif.Passes IrVerif.PassFlags
+
+/-- **C14_cse_weight_mono**: a stalled rewrite is an elimination (`cseStalled ≤ cseCount`), hence the weighted node
+    count of the main graph NEVER grows, in whatever round; it drops strictly in every round with at least one
+    rewrite that is not stalled (`cseStalled < cseCount`) - so at most `cseW` rounds of a PassManager have such a
+    rewrite.  What is still open is a bound on the number of rounds ALL of whose rewrites are stalled: a stalled
+    round can be followed by further modifying rounds (`exCse4` below: k equal nodes at the outputs need k-1
+    modifying rounds, all but the first of them stalled), so the alternative "a stalled round ends the iteration"
+    is false; a measure that also decreases there would be the total Identity-chain depth of the graph outputs
+    (each stalled rewrite hangs an output one link deeper), which is not formalised. -/
+theorem C14_cse_weight_mono (limit : Nat) (m : Model) :
+    cseStalled limit m ≤ cseCount limit m ∧
+    cseW (cseModel limit m).graph.nodes ≤ cseW m.graph.nodes ∧
+    (cseStalled limit m < cseCount limit m → cseW (cseModel limit m).graph.nodes < cseW m.graph.nodes) := by
+  have h1 : cseStalled limit m ≤ cseCount limit m := by
+    simp only [cseStalled, cseCount]
+    exact cseStall_le_cnt limit _ _ _ _ _
+  have h2 := (C14_measure_cse_weighted_partial limit m).1
+  exact ⟨h1, by omega, fun h => by omega⟩
+
+end Cse2
+
+/-! ## ordered stays ordered for the passes that ADD nodes -/
+section SortedAdd
+open IrVerif.Sem IrVerif.Passes IrVerif.PassFlags
+
+theorem sorted_of_valid (m : Model) (hv : validModel m = true) : sortedModel m = true := by
+  simp only [validModel, Bool.and_eq_true, List.all_eq_true] at hv
+  simp only [sortedModel, Bool.and_eq_true, List.all_eq_true]
+  refine ⟨?_, fun f hf => ?_⟩
+  · have := hv.1; simp only [validG, Bool.and_eq_true] at this; exact this.1.2
+  · have := hv.2 f hf; simp only [validG, Bool.and_eq_true] at this; exact this.1.2
+
+/-- **C14_keeps_sorted_add**: CSE (which puts an Identity node at the place of an eliminated node whose output is
+    a graph output) and OutputFix (which appends Identity nodes with fresh outputs) return a model all of whose
+    graphs are topologically ordered when they are given a well-formed one (C05's `validModel`: ordered AND SSA,
+    closed, scoped - evaluated by the driver on every case; for models that are ordered but not well-formed there
+    is no theorem).  Corollary of `C05_pass_valid`.  (Inline, which inserts whole function bodies: oracle only.) -/
+theorem C14_keeps_sorted_add (m : Model) (hv : validModel m = true) :
+    (∀ limit, sortedModel (cseModel limit m) = true) ∧ sortedModel (ofixModel m) = true :=
+  ⟨fun limit => sorted_of_valid _ (C05_pass_valid (.cse limit) m hv),
+    sorted_of_valid _ (C05_pass_valid .outputFix m hv)⟩
+
+end SortedAdd
+
+/-! ## use-def / ownership links and names: passes that are programs over C01's kernel -/
+section KernelPasses
+open IrVerif.Kernel IrVerif.PassKernel
+
+/-- **C14_wf_remove_unused_nodes**: RemoveUnusedNodesPass (main graph, nested graphs, unused initializers,
+    functions; without the schema driven removal of optional outputs) written as a program over C01's kernel -
+    every mutation is a call of `Graph.remove(safe=True)`, `Node.resize_inputs` or `del initializers[name]`, decided
+    by reading the current world - keeps C01's invariant (use-def links, producers, ownership flags and counters,
+    initializer keys = names, node sequences, name authority), whether it returns or raises, and the world it
+    leaves is exactly the replay of the calls it issued.  Corollary of `C01_step_any`. -/
+theorem C14_wf_remove_unused_nodes (fuel : Nat) (w : World) (g : Nat) (funcs : List Nat) (h : WF w) :
+    WF (dceModelK fuel w g funcs).w ∧
+    (dceModelK fuel w g funcs).w = replay w (dceModelK fuel w g funcs).trace.reverse :=
+  ⟨(dceModelK_inv fuel w g funcs h).wf, (dceModelK_inv fuel w g funcs h).rep⟩
+
+/-- **C14_wf_identity_elimination**: the same for IdentityEliminationPass (calls:
+    `convenience.replace_all_uses_with(y, x, replace_graph_outputs=True)`, `x.name = y.name`,
+    `graph.remove(node, safe=True)`). -/
+theorem C14_wf_identity_elimination (exact : Bool) (fuel : Nat) (w : World) (g : Nat) (funcs : List Nat) (h : WF w) :
+    WF (ieModelK exact fuel w g funcs).w ∧
+    (ieModelK exact fuel w g funcs).w = replay w (ieModelK exact fuel w g funcs).trace.reverse :=
+  ⟨(ieModelK_inv exact fuel w g funcs h).wf, (ieModelK_inv exact fuel w g funcs h).rep⟩
+
+/-- any pass that touches the IR only through the modelled public mutators keeps the invariant: what the two
+    theorems above instantiate (`C01_history_from` read as a statement about passes) -/
+theorem C14_wf_replay (w : World) (ops : List AnyOp) (h : WF w) : WF (replay w ops) :=
+  foldl_inv WF _ (fun a b ha => C01_step_any a b ha) ops w h
+
+end KernelPasses
+
+namespace NonVacuity3
+open IrVerif.Sem IrVerif.Passes IrVerif.Inline IrVerif.PassFlags
+
+def fId : OpId := ⟨"local", "F", ""⟩
+def gId : OpId := ⟨"local", "G", ""⟩
+/-- F(a) = Neg(G(a)), G(b) = Relu(b); main: y = F(x) -/
+def exInl : FModel :=
+  ⟨.mk [0] [1] [] [.mk fId [] [some 0] [1] []],
+   [⟨fId, [], [10], [12], [.mk gId [] [some 10] [11] [], .mk ⟨"", "Neg", ""⟩ [] [some 11] [12] []], [""]⟩,
+    ⟨gId, [], [20], [21], [.mk ⟨"", "Relu", ""⟩ [] [some 20] [21] []], [""]⟩], [""]⟩
+example : funcIdsNodup exInl = true ∧ validF exInl = true := by decide
+example : inlFlag (fun _ => true) exInl = true ∧ inlCalls (fun _ => true) exInl = 2 ∧
+    (inlineRun (fun _ => true) exInl).st.stuck = false ∧ (inlineRun (fun _ => true) exInl).st.raised = false ∧
+    (inlineRun (fun _ => true) exInl).st.count = 2 ∧
+    inlCalls (fun _ => true) (inlineRun (fun _ => true) exInl).model = 0 := by decide
+/-- criteria that accept G only: the call in the main graph stays, the call inside F is inlined, F stays -/
+example : inlFlag (fun op => op == gId) exInl = true ∧
+    ((inlineRun (fun op => op == gId) exInl).model.funcs.map (·.id)) = [fId] ∧
+    inlCalls (fun op => op == gId) (inlineRun (fun op => op == gId) exInl).model = 0 := by decide
+/-- criteria that accept nothing: flag False -/
+example : inlFlag (fun _ => false) exInl = false := by decide
+/-- the hypothesis can fail: F calls itself, the budget of the model runs out -/
+example : (inlineRun (fun _ => true)
+    ⟨.mk [0] [1] [] [.mk fId [] [some 0] [1] []], [⟨fId, [], [10], [11], [.mk fId [] [some 10] [11] []], [""]⟩], [""]⟩).st.stuck
+    = true := by decide
+/-- ... and two functions with one identifier are not a dictionary -/
+example : funcIdsNodup ⟨.mk [] [] [] [], [⟨fId, [], [], [], [], []⟩, ⟨fId, [], [], [], [], []⟩], []⟩ = false := by decide
+
+/-- four equal Relu nodes whose outputs are all graph outputs: the second round is stalled (its two rewrites
+    replace one-output Identity nodes by Identity nodes) and is followed by another modifying round -/
+def exCse4 : Model :=
+  ⟨.mk [0] [1, 2, 3, 4] [] [.mk ⟨"", "Relu", ""⟩ [] [some 0] [1] [], .mk ⟨"", "Relu", ""⟩ [] [some 0] [2] [],
+    .mk ⟨"", "Relu", ""⟩ [] [some 0] [3] [], .mk ⟨"", "Relu", ""⟩ [] [some 0] [4] []], []⟩
+example : cseCount 10 (cseModel 10 exCse4) = 2 ∧ cseStalled 10 (cseModel 10 exCse4) = 2 ∧
+    cseFlag 10 (cseModel 10 (cseModel 10 exCse4)) = true ∧
+    cseFlag 10 (cseModel 10 (cseModel 10 (cseModel 10 exCse4))) = false := by decide
+example : validModel exCse4 = true ∧ sortedModel (cseModel 10 exCse4) = true := by decide
+example : cseStalled 10 exCse4 < cseCount 10 exCse4 := by decide
+
+end NonVacuity3
 
 end IrVerif.PassInfra
